@@ -4,7 +4,6 @@ Ltac Zify.zify_post_hook ::= Z.to_euclidean_division_equations.
 
 Definition INT64_MIN : Z := - 2^63.
 Definition INT64_MAX : Z := 2^63 - 1.
-Definition in_int64 (n : Z) : Prop := - 2^63 <= n < 2^63.
 
 (** *** zig-zag *)
 Lemma land1_mod x : Z.land x 1 = x mod 2.
